@@ -23,6 +23,7 @@ func runC13(c *Ctx) {
 	c13Claim(c)
 	c13Close(c)
 	c13Removed(c)
+	c13RemoveIdentity(c)
 }
 
 // heldAt: a Lock/RLock call on a receiver rendered as lockExpr dominates the point and no
